@@ -32,11 +32,12 @@ class Scheduler:
         self.dead_announced = False
         self.break_stderr = False
         self.delivered = []
-        self.died = []              # (step, event): the thread was gone after a request that must leave it listening
+        self.died = []              # (step, event, stderr tail, status item): the thread was gone after a request that must leave it listening
         self.reports = []           # (step, event, characters the thread wrote to stderr while handling it)
         self.err = None             # the buffer stderr is redirected to during the run
         self.flag = None            # reads pcfg.should_exit
-        self.lost_quits = []        # steps at which 'q' was typed to a listening thread and the quit flag was not set
+        self.lost_quits = []        # (step, 'q', ...): 'q' was typed to a listening thread and the quit flag was not set
+        self.current = None         # reads the status item (report.pt_item) the thread reports on
 
     # ---- stand-ins seen by lib_guesser.cracking_session
     def fake_input(self, *a):
@@ -94,10 +95,11 @@ class Scheduler:
         self.send(item)
         after = self.err.tell() if self.err is not None else 0
         self.reports.append((self.step, evname, after - before))
-        if evname != "q" and not self.real.is_alive():
-            self.died.append((self.step, evname))
-        if evname == "q" and self.flag is not None and not self.flag():
-            self.lost_quits.append(self.step)
+        if (evname != "q" and not self.real.is_alive()) or (evname == "q" and self.flag is not None and not self.flag()):
+            # what the thread had written when it gave up, and the status item it was reporting on
+            text = self.err.getvalue()[before:after] if self.err is not None else ""
+            item = self.current() if self.current is not None else None
+            (self.lost_quits if evname == "q" else self.died).append((self.step, evname, text[-200:], repr(item)[:200]))
 
     def deliver(self, evname):
         self.delivered.append((self.step, evname))
@@ -217,6 +219,7 @@ def run_session(pcfg, plan, save_dir, load_config=None, limit=None, storm=False,
                 raise OSError("stderr closed")
             return self._rep.print_status(p)
     session.report = BrokenReport(session.report)
+    sch.current = lambda: getattr(session.report, "pt_item", None)
 
     import lib_guesser.omen.markov_cracker as mcmod
     omen_saves = []
